@@ -568,8 +568,12 @@ public:
           // Important to assign to a local variable (i.e. make a copy)
           // Else, for tainted_volatile, this will allow a
           // time-of-check-time-of-use attack
+          // Read the pointee through a tainted_volatile reference, so that it
+          // is fetched with the size and encoding it has in the sandbox's ABI
+          // and not with those of the application's T_Deref
           auto val_copy = std::make_unique<T_Deref>();
-          *val_copy = *val;
+          auto val_tainted = tainted<T, T_Sbx>::internal_factory(val);
+          *val_copy = (*val_tainted).get_raw_value();
           return verifier(std::move(val_copy));
         }
       }
@@ -639,9 +643,9 @@ private:
     auto target = std::make_unique<T_CopyAndVerifyRangeEl[]>(count);
 
     for (size_t i = 0; i < count; i++) {
-      auto p_src_i_tainted = &(impl()[i]);
-      auto p_src_i = p_src_i_tainted.get_raw_value();
-      detail::convert_type_fundamental_or_array(target[i], *p_src_i);
+      // impl()[i] is a tainted_volatile reference: get_raw_value reads the
+      // element with the size and encoding of the sandbox's ABI
+      target[i] = impl()[i].get_raw_value();
     }
 
     return target;
